@@ -3,9 +3,10 @@
 EXTENDS Integers, Sequences, TLC, Json
 CONSTANTS MaxConns, MaxMsgs
 VARIABLE s
-Init == s \in {[conns |-> k, msgs |-> m, pattern |-> p, via |-> v, holdc |-> hc, holdi |-> hi] :
+\* flavour: the messages are requests, answers, or alternate
+Init == s \in {[conns |-> k, msgs |-> m, pattern |-> p, via |-> v, holdc |-> hc, holdi |-> hi, flavour |-> fl] :
                  k \in 1..MaxConns, m \in 2..MaxMsgs, p \in {"burst", "bytes", "interleaved"}, v \in {"server", "dial"},
-                 hc \in 0..MaxConns, hi \in 0..MaxMsgs}
+                 hc \in 0..MaxConns, hi \in 0..MaxMsgs, fl \in {"req", "ans", "mixed"}}
 Next == UNCHANGED s
 Canon == /\ s.holdc <= s.conns /\ s.holdi <= s.msgs /\ (s.holdc = 0 <=> s.holdi = 0)
 Emit == ~Canon \/ PrintT(ToJson(s))
